@@ -69,7 +69,10 @@ def case_strategy(tier, modes, damage_min, damage_max, max_files=None):
         t = draw(trees.tree(P, max_files=max_files or (7 if tier == "quick" else 16), modes=modes, nonempty_total=True))
         src = draw(meta_source(len(t["files"]), t["single"]))
         dmg = draw(damage_list(t, damage_min, damage_max)) if damage_max else []
-        return {"tree": t, "P": P, "meta": src, "content_path": draw(st.sampled_from(["root", "parent"])), "damage": dmg}
+        return {"tree": t, "P": P, "meta": src, "content_path": draw(st.sampled_from(["root", "parent"])), "damage": dmg,
+                # "prime": the same process first rechecks the intact payload; the damage is then applied in place with the
+                # old timestamps restored (bit rot, cp -p), so anything remembered per file from the first run is stale
+                "prime": draw(st.sampled_from([False, False, True])) if dmg else False}
     return case()
 
 
@@ -92,9 +95,24 @@ def build(scr, case):
     return root, parent, out
 
 
-def apply_damage(root, tree, damage):
+def apply_damage(root, tree, damage, keep_mtime=False):
     """Apply the damage list to the on-disk copy; returns set of file indices actually changed."""
     changed = set()
+    stamps = {}
+    if keep_mtime:
+        for f in tree["files"]:
+            p = root if tree["single"] else os.path.join(root, *f["path"])
+            if os.path.exists(p):
+                stamps[p] = os.stat(p)
+    try:
+        return _apply_damage(root, tree, damage, changed)
+    finally:
+        for p, st0 in stamps.items():
+            if os.path.exists(p):
+                os.utime(p, ns=(st0.st_atime_ns, st0.st_mtime_ns))
+
+
+def _apply_damage(root, tree, damage, changed):
     for d in damage:
         f = tree["files"][d["file"]]
         path = root if tree["single"] else os.path.join(root, *f["path"])
